@@ -30,6 +30,9 @@ Headline statements (everything else in this file is a lemma towards them):
                     `refused_frame_write_leaves_parent_group` show what `Atomic` excludes and why;
 * `filter_subset`, `absent_terms_ignored`, `filter_monotone`, `filter_cols_subset`,
   `filter_rows_are_stored`, `view_restricts`   filter terms only restrict;
+* `store_independent_of_cache`, `caller_mutation_only_touches_cache`, `rollback_ignores_cache`   whatever the cache
+                    holds (a filtered view, a stale entry, an object the caller mutated in place) write / remove /
+                    replace do the same to the store; a caller's in-place mutation stays in that artifact's cache;
 * `filters_do_not_affect_store`, `reopenWith_keeps_store`, `filtered_ops_K_partial`, `filtered_run_refines`,
   `filtered_refusal_preserves_content`   the filter terms of the artifact that PERFORMS the operations shape the
                     view `load` hands out and nothing else: the store, the outcomes, `K`, the refinement and
@@ -1201,6 +1204,7 @@ constructing another artifact on the file does nothing -/
 def fspecStep (m : Spec) : FOp → Spec
   | .op o => specStep m o
   | .reopenWith _ => m
+  | .editReturnedKeys _ => m
 
 /-- **Whatever filter terms the acting artifact was opened with**, every operation does to the store
 (file, bare groups, key list, cache) and returns as outcome exactly what it does for an unfiltered
@@ -1211,6 +1215,14 @@ theorem filters_do_not_affect_store (fa : FArt) (t : List Term) (o : Op) :
     (({ fa with terms := t } : FArt).step (.op o)).2 = (fa.step (.op o)).2 ∧
     (fa.step (.op o)).1.art = (step fa.art o).1 ∧ (fa.step (.op o)).2 = (step fa.art o).2 ∧
     (fa.step (.op o)).1.terms = fa.terms := ⟨rfl, rfl, rfl, rfl, rfl⟩
+
+/-- **the list `Artifact.keys` hands out is the caller's own** (F36): whatever he does to it – remove
+`metadata.keyspace`, append, clear, reorder – the artifact (key list, cache, filter terms) and the store are exactly
+as before, in every state; so every theorem about operation sequences holds with such edits interleaved
+(`filtered_ops_K_partial`, `filtered_run_refines` range over `FOp`, which contains them) -/
+theorem returned_key_list_is_a_copy (fa : FArt) (e : KeyEdit) :
+    fa.step (.editReturnedKeys e) = (fa, .ok) ∧
+    ∀ o : Op, ((fa.step (.editReturnedKeys e)).1.step (.op o)) = fa.step (.op o) := ⟨rfl, fun _ => rfl⟩
 
 /-- constructing the acting artifact anew with other terms changes neither file nor key list (it empties
 the cache); with two draw terms the constructor raises and nothing changes at all -/
@@ -1233,6 +1245,7 @@ theorem fstep_K {H : List Key} (hs : Sep H) (fa : FArt) (o : FOp)
     by_cases h : drawColumns t = none
     · rw [(reopenWith_keeps_store hs fa t hK).1 h]; exact hK
     · rw [(reopenWith_keeps_store hs fa t hK).2 h]; exact K_clear hK
+  | editReturnedKeys e => exact hK
 
 theorem fstep_G {H : List Key} (hs : Sep H) (fa : FArt) (o : FOp)
     (hop : ∀ k, o.key? = some k → k ∈ H ∨ k = ksKey) (hK : K H fa.art) (hG : G H fa.art) :
@@ -1243,6 +1256,7 @@ theorem fstep_G {H : List Key} (hs : Sep H) (fa : FArt) (o : FOp)
     by_cases h : drawColumns t = none
     · rw [(reopenWith_keeps_store hs fa t hK).1 h]; exact hG
     · rw [(reopenWith_keeps_store hs fa t hK).2 h]; exact hG
+  | editReturnedKeys e => exact hG
 
 /-- `ops_K` for histories performed by artifacts with arbitrary – and changing – filter terms -/
 theorem filtered_ops_K_partial {H : List Key} (hs : Sep H) (fops : List FOp)
@@ -1273,6 +1287,7 @@ theorem filtered_run_refines {H : List Key} (hs : Sep H) (fops : List FOp)
         by_cases h : drawColumns t = none
         · rw [(reopenWith_keeps_store hs fa t hK).1 h]; rfl
         · rw [(reopenWith_keeps_store hs fa t hK).2 h]; rfl
+      | editReturnedKeys e => rfl
     rw [← hstep]
     exact ih (fun x hx => hops x (List.mem_cons_of_mem _ hx)) _ (fstep_K hs fa o ho' hK) (fstep_G hs fa o ho' hK hG)
 
@@ -1350,10 +1365,150 @@ theorem reads_do_not_touch_file (a : Art) (k : Key) :
     · rfl
     · split <;> rfl
 
-/-! ### the recorded finding (F12) and the limits of atomicity, as witnesses on the model of the code as it is -/
-
 def jsonD (i : Nat) : Option Data := some ⟨.json, i⟩
 def tableD (i : Nat) : Option Data := some ⟨.table, i⟩
+
+/-! ### the cache never reaches the store (lessons 12-13: memos, shared objects, in-place mutation by the caller) -/
+
+/-- `write` neither reads nor touches the cache -/
+theorem write_setCache (a : Art) (c : List (Key × Node)) (k : Key) (d : Option Data) :
+    write { a with cache := c } k d = ({ (write a k d).1 with cache := c }, (write a k d).2) := by
+  unfold write
+  split
+  · rfl
+  · cases d with
+    | none => rfl
+    | some d =>
+      simp only [hdfWrite_setCache]
+      generalize hdfWrite a k d = r
+      obtain ⟨a1, b⟩ := r
+      cases b with
+      | false => rfl
+      | true =>
+        simp only [keysAppend]
+        have := keysRewrite_setCache { a1 with keys := a1.keys ++ [k] } c
+        simp only at this ⊢
+        rw [this]
+        generalize keysRewrite { a1 with keys := a1.keys ++ [k] } = r2
+        obtain ⟨a2, b2⟩ := r2
+        cases b2 <;> rfl
+
+/-- `remove` does not read the cache: it drops the key's entry from whatever the cache is -/
+theorem remove_setCache (a : Art) (c : List (Key × Node)) (k : Key) :
+    ∃ c', remove { a with cache := c } k = ({ (remove a k).1 with cache := c' }, (remove a k).2) := by
+  unfold remove
+  split
+  · exact ⟨c, rfl⟩
+  split
+  · exact ⟨c, rfl⟩
+  · simp only [keysRemove]
+    have := keysRewrite_setCache { a with keys := a.keys.erase k } c
+    simp only at this ⊢
+    rw [this]
+    generalize keysRewrite { a with keys := a.keys.erase k } = r
+    obtain ⟨a1, b⟩ := r
+    cases b with
+    | false => exact ⟨c, rfl⟩
+    | true =>
+      simp only
+      have h2 := hdfRemove_setCache { a1 with cache := a1.cache.filter (fun e => e.1 != k) } (c.filter (fun e => e.1 != k)) k
+      simp only at h2 ⊢
+      rw [h2]
+      cases hdfRemove { a1 with cache := a1.cache.filter (fun e => e.1 != k) } k with
+      | none => exact ⟨c.filter (fun e => e.1 != k), rfl⟩
+      | some a3 => exact ⟨c.filter (fun e => e.1 != k), rfl⟩
+
+/-- **`replace` does not read the cache** – in particular the copy it keeps for rolling back comes from the
+file (`hdfLoad`), whatever the cache holds (a filtered view, an object the caller mutated in place, …) -/
+theorem replace_setCache (a : Art) (c : List (Key × Node)) (k : Key) (d : Option Data) :
+    ∃ c', replace { a with cache := c } k d = ({ (replace a k d).1 with cache := c' }, (replace a k d).2) := by
+  unfold replace
+  split
+  · exact ⟨c, rfl⟩
+  · cases d with
+    | none => exact ⟨c, rfl⟩
+    | some d =>
+      simp only
+      split
+      · exact ⟨c, rfl⟩
+      · have hl : hdfLoad { a with cache := c } k = hdfLoad a k := rfl
+        rw [hl]
+        cases hdfLoad a k with
+        | none => exact ⟨c, rfl⟩
+        | some old =>
+          simp only
+          obtain ⟨c1, h1⟩ := remove_setCache a c k
+          rw [h1]
+          generalize remove a k = r
+          obtain ⟨a1, o⟩ := r
+          cases o with
+          | ok =>
+            simp only
+            rw [write_setCache a1 c1 k (some d)]
+            generalize write a1 k (some d) = r2
+            obtain ⟨a2, o2⟩ := r2
+            cases o2 with
+            | ok => exact ⟨c1, rfl⟩
+            | data n => exact ⟨c1, by simp only [write_setCache a2 c1 k (some (dataOf old))]⟩
+            | rejected => exact ⟨c1, by simp only [write_setCache a2 c1 k (some (dataOf old))]⟩
+          | data n => exact ⟨c1, rfl⟩
+          | rejected => exact ⟨c1, rfl⟩
+
+/-- the store: everything but the cache -/
+def storeOf (a : Art) : List (Key × Node) × List Key × List Key := (a.file, a.groups, a.keys)
+
+/-- **What is stored never depends on what the cache holds.** Whatever sits in `Artifact._cache` – a filtered
+view, an entry another live artifact made stale, an object the caller mutated in place – `write`, `remove` and
+`replace` (its roll-back included) do to file, bare groups and key list exactly what they do with any other
+cache, and are accepted or refused alike. -/
+theorem store_independent_of_cache (a : Art) (c : List (Key × Node)) (k : Key) (d : Option Data) :
+    (storeOf (write { a with cache := c } k d).1 = storeOf (write a k d).1 ∧
+      (write { a with cache := c } k d).2 = (write a k d).2) ∧
+    (storeOf (remove { a with cache := c } k).1 = storeOf (remove a k).1 ∧
+      (remove { a with cache := c } k).2 = (remove a k).2) ∧
+    (storeOf (replace { a with cache := c } k d).1 = storeOf (replace a k d).1 ∧
+      (replace { a with cache := c } k d).2 = (replace a k d).2) := by
+  refine ⟨?_, ?_, ?_⟩
+  · rw [write_setCache]; exact ⟨rfl, rfl⟩
+  · obtain ⟨c', h⟩ := remove_setCache a c k; rw [h]; exact ⟨rfl, rfl⟩
+  · obtain ⟨c', h⟩ := replace_setCache a c k d; rw [h]; exact ⟨rfl, rfl⟩
+
+theorem load_store (a : Art) (k : Key) : storeOf (load a k).1 = storeOf a := by
+  unfold load
+  split
+  · rfl
+  · split
+    · rfl
+    · split <;> rfl
+
+/-- a caller who mutates, in place, the object `load` handed out changes what THAT artifact's cache holds for
+the key and nothing else: file, bare groups and key list are untouched, and after `clear_cache` the artifact is
+what it would have been without the mutation -/
+theorem caller_mutation_only_touches_cache (a : Art) (k : Key) (n' : Node) :
+    storeOf (mutateLoaded a k n').1 = storeOf a ∧
+    clearCache (mutateLoaded a k n').1 = clearCache a := by
+  have hs := load_store a k
+  unfold mutateLoaded
+  generalize load a k = r at hs ⊢
+  obtain ⟨a1, o⟩ := r
+  simp only [storeOf, Prod.mk.injEq] at hs
+  obtain ⟨h1, h2, h3⟩ := hs
+  cases o with
+  | ok => simp [storeOf, clearCache, h1, h2, h3]
+  | rejected => simp [storeOf, clearCache, h1, h2, h3]
+  | data n => simp [storeOf, clearCache, h1, h2, h3]
+
+/-- the scenario of the seeded defects C19-3 / C19-4, on the model of the code as it is: load through a
+filtered artifact (or mutate the loaded object), then a refused `replace` – the roll-back restores the stored
+value, not the cached one -/
+theorem rollback_ignores_cache :
+    (fileKeys (replace (mutateLoaded (run [.write ["x", "y"] (tableD 1)] init) ["x", "y"] (.tbl 99)).1
+        ["x", "y"] (some ⟨.zeroRow, 2⟩)).1 = [["x", "y"], ksKey]) ∧
+    lookup (replace (mutateLoaded (run [.write ["x", "y"] (tableD 1)] init) ["x", "y"] (.tbl 99)).1
+        ["x", "y"] (some ⟨.zeroRow, 2⟩)).1.file ["x", "y"] = some (.tbl 1) := by decide
+
+/-! ### the recorded finding (F12) and the limits of atomicity, as witnesses on the model of the code as it is -/
+
 
 /-- F12: writing pandas data under the two-part key `a.b` destroys the node of `a.b.c`; the key is still
 reported (also by a freshly opened artifact) but is gone from the file and cannot be loaded. -/
